@@ -3,7 +3,8 @@
 (* String arrays (C10), small-scope exhaustive: every list of 0..MaxN      *)
 (* strings of length 0..MaxL over a two-byte alphabet is packed, counted   *)
 (* and unpacked - with every requested count smaller, equal and greater    *)
-(* than the packed count, with and without destinations.                   *)
+(* than the packed count, with every pattern of supplied / omitted         *)
+(* destinations (a string without destination only reports its length).    *)
 (***************************************************************************)
 EXTENDS VssCodec, Json, FiniteSets
 CONSTANTS MaxN, MaxL, Extra
@@ -20,24 +21,30 @@ Specials == IF Extra THEN { EmptyN(300), EmptyN(256), EmptyN(255), <<LongStr(300
 
 SOp(op, req, wd) == [op |-> op, req |-> req, withdest |-> wd]
 Requests(k) == { r \in {0, k - 1, k, k + 1, k + 5} : r >= 0 /\ r <= 8 }
+\* which of the requested strings get a destination (1) and which only report their length (0):
+\* every pattern for up to 3 requests, six characteristic ones beyond
+DestPats(req) ==
+  IF req <= 3 THEN { Mat(f) : f \in [1..req -> {0, 1}] }
+  ELSE { Mat([i \in 1..req |-> 0]), Mat([i \in 1..req |-> 1]), Mat([i \in 1..req |-> i % 2]), Mat([i \in 1..req |-> (i + 1) % 2]),
+         Mat([i \in 1..req |-> IF i = 1 THEN 1 ELSE 0]), Mat([i \in 1..req |-> IF i = 1 THEN 0 ELSE 1]) }
 
 SInit == n = 0 /\ lst \in (Lists \cup Specials)
          /\ mem = << >> /\ hb = << >> /\ out = Sentinel /\ step = << >>
-         /\ sstep = SOp("start", 0, 0) @@ [list |-> << >>, blob |-> << >>, count |-> 0, res |-> << >>]
+         /\ sstep = SOp("start", 0, << >>) @@ [list |-> << >>, blob |-> << >>, count |-> 0, res |-> << >>]
 \* result of unpacking `req` strings: for i <= min(req, count): [len, bytes]; entries beyond the count are left untouched
 UnpackRes(blob, req, wd) ==
   LET u == Unpack(blob) IN
-  [i \in 1..req |-> IF i <= Len(u) THEN [len |-> Len(u[i]), bytes |-> IF wd = 1 THEN u[i] ELSE << >>, touched |-> 1]
+  [i \in 1..req |-> IF i <= Len(u) THEN [len |-> Len(u[i]), bytes |-> IF wd[i] = 1 THEN u[i] ELSE << >>, touched |-> 1]
                     ELSE [len |-> 0, bytes |-> << >>, touched |-> 0]]
 SNext ==
   /\ n' = n + 1 /\ UNCHANGED <<lst, mem, hb, out, step>>
   /\ LET blob == Pack(lst) IN
      \/ /\ n = 0
-        /\ sstep' = SOp("pack", Len(lst), 1) @@ [list |-> lst, blob |-> blob, count |-> Len(lst), res |-> << >>]
+        /\ sstep' = SOp("pack", Len(lst), << >>) @@ [list |-> lst, blob |-> blob, count |-> Len(lst), res |-> << >>]
      \/ /\ n = 1
-        /\ sstep' = SOp("count", 0, 0) @@ [list |-> lst, blob |-> blob, count |-> Count(blob), res |-> << >>]
+        /\ sstep' = SOp("count", 0, << >>) @@ [list |-> lst, blob |-> blob, count |-> Count(blob), res |-> << >>]
      \/ /\ n = 1 /\ Len(lst) <= 8
-        /\ \E req \in Requests(Len(lst)) : \E wd \in {0, 1} :
+        /\ \E req \in Requests(Len(lst)) : \E wd \in DestPats(req) :
              sstep' = SOp("unpack", req, wd) @@ [list |-> lst, blob |-> blob, count |-> Count(blob), res |-> UnpackRes(blob, req, wd)]
 SSpec == SInit /\ [][SNext]_svars
 
